@@ -92,6 +92,16 @@ pub fn explore<Sy: System>(sys: &Sy, lim: &Limits, rep: &Report, name: &str) -> 
             rep.cap(&format!("{}: wall cap reached at depth {}", name, depth));
             break;
         }
+        // memory cap (resident set), checked once per level: a capped run reports what it covered, never a verdict
+        // on the rest; default 28 GiB, VERIF_RSS_CAP_GB overrides
+        if let Some(gb) = rss_gib() {
+            let cap = std::env::var("VERIF_RSS_CAP_GB").ok().and_then(|v| v.parse::<f64>().ok()).unwrap_or(28.0);
+            if gb > cap {
+                closed = false;
+                rep.cap(&format!("{}: memory cap ({} GiB resident) reached at depth {} (all histories up to that depth covered)", name, cap, depth));
+                break;
+            }
+        }
         // parallel expansion
         let results: Vec<(u32, Vec<(Sy::Op, StepOut<Sy::State>)>, Acc)> = frontier
             .par_iter()
@@ -191,4 +201,11 @@ pub fn replay_history<Sy: System>(sys: &Sy, history: &[Value]) -> Result<(Vec<St
         }
     }
     Ok((lines, s))
+}
+
+/// resident set size of this process in GiB (None when /proc is not readable)
+pub fn rss_gib() -> Option<f64> {
+    let t = std::fs::read_to_string("/proc/self/statm").ok()?;
+    let pages: f64 = t.split_whitespace().nth(1)?.parse().ok()?;
+    Some(pages * 4096.0 / (1u64 << 30) as f64)
 }
